@@ -186,7 +186,9 @@ def c07(prog, rep):
     from . import hasharr as HA
     HA.rule_c07(prog, rep)
     HA.rule_i7(prog, rep)
+    HA.rule_i8(prog, rep)
     rep.floor('I7', 2)
+    rep.floor('I8', 1)
     rep.floor('I1', 10)
     rep.floor('I2', 100)
     rep.floor('I3', 4)
